@@ -241,10 +241,12 @@ pub struct Ty {
     pub kind: TyKind,
     pub tag: Option<Tag>,
     pub constraint: Option<Constraint>,
+    /// permitted alphabet as inclusive character ranges: rendered as a further serial constraint `(FROM ("a".."f" | "x"))`
+    pub alphabet: Option<Vec<(char, char)>>,
 }
 impl Ty {
     pub fn plain(kind: TyKind) -> Ty {
-        Ty { kind, tag: None, constraint: None }
+        Ty { kind, tag: None, constraint: None, alphabet: None }
     }
 }
 
@@ -554,6 +556,25 @@ pub fn ty_tokens(t: &Ty, out: &mut Vec<String>) {
             c.tokens(out);
         }
     }
+    if let Some(a) = &t.alphabet {
+        out.push("(".into());
+        out.push("FROM".into());
+        out.push("(".into());
+        for (i, (lo, hi)) in a.iter().enumerate() {
+            if i > 0 {
+                out.push("|".into());
+            }
+            if lo == hi {
+                out.push(format!("\"{lo}\""));
+            } else {
+                out.push(format!("\"{lo}\""));
+                out.push("..".into());
+                out.push(format!("\"{hi}\""));
+            }
+        }
+        out.push(")".into());
+        out.push(")".into());
+    }
 }
 
 /// One rendered source text with bookkeeping on where things are.
@@ -705,6 +726,8 @@ pub struct GenOpts {
     pub tagged_assignments: bool,
     pub ext_constraints: bool,
     pub structured_values: bool,
+    pub alphabets: bool,
+    pub value_refs: bool,
 }
 impl Default for GenOpts {
     fn default() -> Self {
@@ -732,6 +755,8 @@ impl Default for GenOpts {
             tagged_assignments: true,
             ext_constraints: true,
             structured_values: false,
+            alphabets: true,
+            value_refs: true,
         }
     }
 }
@@ -862,6 +887,21 @@ impl<'a> Gen<'a> {
             _ => TyKind::Integer { named: vec![] },
         };
         let mut t = Ty::plain(kind);
+        if self.o.alphabets && self.o.constraints {
+            if let TyKind::Str(k) = &t.kind {
+                if k.known_multiplier() && self.rng.chance(1, 4) {
+                    let a = match k {
+                        StrKind::Numeric => vec![('0', '5')],
+                        _ => match self.rng.below(3) {
+                            0 => vec![('A', 'F')],
+                            1 => vec![('a', 'f'), ('x', 'x')],
+                            _ => vec![('0', '9'), ('A', 'C')],
+                        },
+                    };
+                    t.alphabet = Some(a);
+                }
+            }
+        }
         if self.o.constraints && self.rng.chance(1, 2) {
             t.constraint = match &t.kind {
                 TyKind::Integer { .. } => Some(self.int_constraint()),
@@ -1060,6 +1100,30 @@ impl<'a> Gen<'a> {
                 if !named.is_empty() && base.constraint.is_none() && self.rng.chance(1, 2) {
                     return Some(Val::Ident(self.rng.pick(named).0.clone()));
                 }
+                if self.o.value_refs && base.constraint.is_none() && named.is_empty() && self.rng.chance(1, 3) {
+                    // reference to an INTEGER value assignment generated earlier (possibly in another module => imported)
+                    let cands: Vec<(String, usize)> = self
+                        .values
+                        .iter()
+                        .filter(|(_, (m, ty, v))| {
+                            matches!(v, Val::Int(_))
+                                && (*m == self.cur_module || self.o.imports)
+                                && match &ty.kind {
+                                    TyKind::Integer { .. } => true,
+                                    TyKind::Ref { name, .. } => self.env.get(name).is_some_and(|(_, rt)| matches!(rt.kind, TyKind::Integer { .. })),
+                                    _ => false,
+                                }
+                        })
+                        .map(|(n, (m, _, _))| (n.clone(), *m))
+                        .collect();
+                    if !cands.is_empty() {
+                        let (n, m) = self.rng.pick(&cands).clone();
+                        if m != self.cur_module && !self.foreign.contains(&(m, n.clone())) {
+                            self.foreign.push((m, n.clone()));
+                        }
+                        return Some(Val::Ident(n));
+                    }
+                }
                 let v = match (lo, hi) {
                     (Some(l), Some(h)) => *self.rng.pick(&[l, h, l + (h - l) / 2]),
                     (Some(l), None) => l + self.rng.below(1000) as i128,
@@ -1069,6 +1133,7 @@ impl<'a> Gen<'a> {
                 Some(Val::Int(v))
             }
             TyKind::Enumerated(e) => Some(Val::Ident(self.rng.pick(&e.root).0.clone())),
+            TyKind::Str(_) if base.alphabet.is_some() => None,
             TyKind::Str(k) => {
                 let (lo, hi) = match &base.constraint {
                     Some(Constraint::Size { lo, hi, .. }) => (*lo as usize, hi.map(|h| h as usize).unwrap_or(*lo as usize + 3)),
@@ -1347,6 +1412,9 @@ pub fn simpler_ty(t: &Ty) -> Vec<Ty> {
     }
     if t.constraint.is_some() {
         out.push(Ty { constraint: None, ..t.clone() });
+    }
+    if t.alphabet.is_some() {
+        out.push(Ty { alphabet: None, ..t.clone() });
     }
     match &t.kind {
         TyKind::Sequence(s) | TyKind::Set(s) | TyKind::Choice(s) => {
